@@ -82,8 +82,9 @@ func TestC08Convergence(t *testing.T) {
 	kinds := []string{"sessions", "subscriptions", "retained", "mixed"}
 	// +-25 = 2.5 ticks (never coincides with the other clock); +-10 = exactly one tick: B's clock then reads
 	// exactly the stamp A just used, only meaningful with synchronised origins (otherwise a genuine tie)
-	const hourAhead = int64(3_600_000_000_005) // B's clock one hour ahead of A's (the stamps are nanoseconds in production)
-	offsets := []int64{0, -25, 25, -10, 10, hourAhead}
+	const hourAhead = int64(2*3_600_000_000_000 + 5)   // B's clock two hours ahead of A's, i.e. one hour ahead of the wall clock
+	const nineBehind = int64(-9*3_600_000_000_000 + 5) // B's clock nine hours behind (beyond any 8-hour expiry window)
+	offsets := []int64{0, -25, 25, -10, 10, hourAhead, nineBehind}
 	shardedPhase(t, "C08", "C08/convergence", "E1-enum", "TestC08Convergence", func(sh vk.Shard, rep *vk.Report) {
 		dInstallClock()
 		deadline := vk.Deadline(200e9, 1500e9)
@@ -111,7 +112,7 @@ func TestC08Convergence(t *testing.T) {
 						if (off == -10 || off == 10) && n > 4 {
 							continue
 						}
-						if off == hourAhead && n > 3 {
+						if (off == hourAhead || off == nineBehind) && n > 3 {
 							continue // the far-apart clocks are explored up to three updates (cost)
 						}
 						if n == 5 && (off != 0 && !syncMode) {
@@ -163,6 +164,21 @@ func TestC08Convergence(t *testing.T) {
 										Replay: desc})
 								}
 							}
+							// a replica that learns everything from origin A's snapshot (a joining node), and then is sent every update
+							// once more, oldest first (retransmissions, a peer that lagged): the snapshot must carry what keeps older
+							// updates from coming back
+							{
+								r := newDNode("S", 8, 0)
+								r.st.Distributor().MergeRemoteState(nodes[0].st.Distributor().LocalState(false), true)
+								for _, m := range U {
+									r.st.Distributor().NotifyMsg(m)
+								}
+								if got := r.list().String(); got != ws {
+									rep.Violate(vk.Violation{Sig: "c08-snapshot-replica-diverges:" + kind,
+										Msg:    fmt.Sprintf("%v: a replica that merged origin A's snapshot and was then sent every update again lists %s; newest-entry-wins gives %s", desc, got, ws),
+										Replay: desc})
+								}
+							}
 							m := len(U)
 							if m > maxU {
 								return
@@ -179,6 +195,8 @@ func TestC08Convergence(t *testing.T) {
 									}
 									r.st.Distributor().NotifyMsg(concatBroadcasts(group))
 									merges++
+									// a push/pull exchange is served between two deliveries: serving a snapshot only reads the state
+									_ = r.st.Distributor().LocalState(false)
 									cur := r.list().String()
 									if cur != prev {
 										changed++
@@ -243,7 +261,7 @@ func TestC08Convergence(t *testing.T) {
 		rep.Bounds["kinds"] = kinds
 		rep.Bounds["clock_offsets_of_B_in_tenths_of_a_tick"] = offsets
 		rep.Bounds["delivery"] = "every permutation x every contiguous batching, plus every permutation followed by one duplicated update"
-		rep.Rule = "U = broadcasts queued by a script of real mutator calls on origins A and B (B's clock offset by 0 / -2.5 / +2.5 ticks, or one hour ahead; origins synchronised after each call or only at the end); every delivery schedule to a fresh replica; states = distinct replica listings; non-trivial = distinct (script, result) with >= 3 updates"
+		rep.Rule = "U = broadcasts queued by a script of real mutator calls on origins A and B (B's clock offset by 0 / -2.5 / +2.5 ticks, two hours ahead or nine hours behind (stamps are wall-clock nanoseconds around the real present); origins synchronised after each call or only at the end); every delivery schedule to a fresh replica; states = distinct replica listings; non-trivial = distinct (script, result) with >= 3 updates"
 		rep.Floor("merges_changed", 100, int64(rep.Extra["merges_that_changed_state"].(float64)))
 		rep.Floor("merges_rejected", 100, int64(rep.Extra["merges_that_changed_nothing"].(float64)))
 	})
